@@ -170,6 +170,11 @@ class ReusableParts:
     def _compute_donor(self, norm: NormalizedShape):
         self._donor_cache[norm] = None  # no solution
 
+        if self.reuse_tolerance == -1:
+            # reuse is disabled (see try_reuse); affine_between is meaningless, and
+            # can divide by zero, with a negative tolerance
+            return
+
         # try to select a donor that can fulfil every member of the set
         # the input shape is in the set so if found we can get from donor => input
         # shrinking a big thing is more likely to result in small #s that fit into
